@@ -127,7 +127,11 @@ func VF_C12_L1_ResetFanout() {
 	content["test.d"] = `{"model":{"v":2}}`
 	zzvf.Note("reset resources [" + p1 + "] access [" + p2 + "]")
 	payload, _ := json.Marshal(map[string][]string{"resources": {p1}, "access": {p2}})
+	w.mq.event("event.test.a", "custom", []byte(`{"n":1}`))
 	w.mq.event("system", "reset", payload)
+	w.settle()
+	// a custom event while the re-fetch is outstanding is not superseded by it
+	w.mq.event("event.test.a", "custom", []byte(`{"n":2}`))
 	w.settle()
 	gets := map[string]int{}
 	accesses := map[string]int{}
@@ -167,7 +171,17 @@ func VF_C12_L1_ResetFanout() {
 		serve("")
 	}
 	observe()
+	w.mq.event("event.test.a", "custom", []byte(`{"n":3}`))
+	w.settle()
+	observe()
 	zzvf.Assert(vfQuiescent(w), "run-reaches-quiescence")
+	customs := 0
+	for _, f := range cl.frames {
+		if strings.Contains(f, `"test.a.custom"`) {
+			customs++
+		}
+	}
+	zzvf.Assert(customs == 3, "custom-events-around-a-reset-are-all-delivered")
 	zzvf.Reach("c12l1-quiescent")
 	// convergence without resubscribing
 	check := func(rid, name string) {
